@@ -166,7 +166,7 @@ def r4_skip_table(ctx):
             d0 = decision_on(body, lambda t: t[0] == "bin" and t[1] == "Eq" and t[2][0] == "phi" and t[2][3] == "depth")
             skipped = len([c for c in calls(body) if name_is(c[2], "skip_event")])
             r = ret_of(p)
-            if r is not None and r[0] == "call" and name_is(r[2], "from_residual"):
+            if r is not None and ((r[0] == "call" and name_is(r[2], "from_residual")) or is_error_exit(p)):
                 continue
             last = p[-1]
             if last[0] == "loop":
@@ -200,7 +200,7 @@ def r5_seq_table(ctx):
                 suit = decision_on(p, lambda t: has_subterm(t, lambda s: call_is(s, "is_suitable")) and t[0] in ("pl", "call") and "branch" not in str(t[2] if t[0] == "call" else ""))
                 last = p[-1]
                 r = ret_of(p) if last[0] == "ret" else None
-                if r is not None and r[0] == "call" and name_is(r[2], "from_residual"):
+                if r is not None and ((r[0] == "call" and name_is(r[2], "from_residual")) or is_error_exit(p)):
                     continue
                 cs = [sym.short(c[2]).split("::")[-1] for c in calls(p) if name_is(c[2], "skip", "next", "deserialize", "missed_end") and ("Deserializer" in c[2] or "missed_end" in c[2] or "DeserializeSeed" in c[2])]
                 if last[0] == "loop":
